@@ -204,12 +204,14 @@ class SlurmOps:
         args = ["--parsable"]
         if dependencies:
             args.append("--dependency=afterok:{}".format(":".join(dependencies)))
-        job_id = call("sbatch", *args, input=script).strip()
-        # With --parsable sbatch prints "jobid" or "jobid;cluster". Anything
-        # else means that the job was not accepted.
-        if not re.match(r"^\d+(;\S+)?$", job_id):
-            raise BackendError(f"sbatch returned an unexpected job id: {job_id!r}")
-        return job_id
+        output = call("sbatch", *args, input=script).strip()
+        # With --parsable sbatch prints "jobid" or, on multi-cluster
+        # installations, "jobid;cluster". Anything else means that the job was
+        # not accepted. squeue, sacct, scancel and --dependency identify the
+        # job by the id alone.
+        if not re.match(r"^\d+(;\S+)?$", output):
+            raise BackendError(f"sbatch returned an unexpected job id: {output!r}")
+        return output.split(";")[0]
 
     def get_job_states_from_squeue(self, tracked_jobs):
         logger.debug("Loading job states from squeue")
